@@ -19,6 +19,9 @@
 (*        | [k |-> "param", s |-> <<>>, n |-> bytes] the placeholder {n}    *)
 (*        | [k |-> "pre", s |-> bytes, n |-> bytes]  literal s then {n} to  *)
 (*          the end of the segment ("key={value}", "v{ver}")               *)
+(*        | [k |-> "comp", s |-> <<>>, n |-> <<>>, parts |-> Seq(piece)]   *)
+(*          a composite segment "{a}.{b}", "{id}-cancel": pieces are lit /  *)
+(*          param segs, the first one a placeholder                         *)
 (*  op    = [method |-> bytes (upper case), segs |-> Seq(seg),              *)
 (*           trail |-> BOOLEAN]      template "/" seg "/" seg ... ["/"]     *)
 (*          (segs = <<>> is the template "/")                               *)
@@ -126,7 +129,12 @@ EscapedPathOf(t) ==
 (***************************************************************************)
 (* Templates, base paths and their texts.                                  *)
 (***************************************************************************)
-SegText(sg) == IF sg.k = "lit" THEN sg.s ELSE sg.s \o <<LBRACE>> \o sg.n \o <<RBRACE>>     \* s = <<>> for "param"
+RECURSIVE PiecesText(_)
+PiecesText(ps) == IF ps = <<>> THEN <<>>
+                  ELSE (IF Head(ps).k = "lit" THEN Head(ps).s ELSE <<LBRACE>> \o Head(ps).n \o <<RBRACE>>) \o PiecesText(Tail(ps))
+SegText(sg) == IF sg.k = "lit" THEN sg.s
+               ELSE IF sg.k = "comp" THEN PiecesText(sg.parts)
+               ELSE sg.s \o <<LBRACE>> \o sg.n \o <<RBRACE>>     \* s = <<>> for "param"
 
 RECURSIVE SegsText(_)
 SegsText(segs) == IF segs = <<>> THEN <<>> ELSE <<SLASH>> \o SegText(Head(segs)) \o SegsText(Tail(segs))
@@ -149,7 +157,9 @@ SegsPattern(segs) ==
   IF segs = <<>> THEN <<>>
   ELSE (CASE Head(segs).k = "lit"   -> <<TLit(<<SLASH>>), TLit(Head(segs).s)>>
           [] Head(segs).k = "param" -> <<TLit(<<SLASH>>), TPar(Head(segs).n)>>
-          [] Head(segs).k = "pre"   -> <<TLit(<<SLASH>>), TLit(Head(segs).s), TPar(Head(segs).n)>>)
+          [] Head(segs).k = "pre"   -> <<TLit(<<SLASH>>), TLit(Head(segs).s), TPar(Head(segs).n)>>
+          [] Head(segs).k = "comp"  -> <<TLit(<<SLASH>>)>> \o [j \in DOMAIN Head(segs).parts |->
+                                          IF Head(segs).parts[j].k = "lit" THEN TLit(Head(segs).parts[j].s) ELSE TPar(Head(segs).parts[j].n)])
        \o SegsPattern(Tail(segs))
 
 (***************************************************************************)
@@ -248,8 +258,20 @@ DeclRecords(api, M) ==
 (* "/k=" instantiates such a template; the code routes it and then refuses the empty required parameter (422, no       *)
 (* handler).  Where a template fits only in this way the outcome is left open; for whole-segment placeholders the two  *)
 (* readings coincide on cleaned paths.                                                                                *)
+(* Named deviation CompositeSegmentsOpen.  The router knows a composite segment only as ONE placeholder (pathConverter   *)
+(* keeps its first name) and splits the decoded value afterwards (decodeCompositParams): whether and with which values  *)
+(* a request that reaches such an operation is handled is left open here (e.g. 422 where the pieces do not match);      *)
+(* what is still demanded: no panic, at most one handler, of the request's method, whose template fits at least in      *)
+(* this coarse reading.  (Even a strict fit is not always handled: the value is split at the FIRST separator, so      *)
+(* "/f/.;.x" against /f/{a}.{b} gives a = "" -> 422 although a = ".;", b = "x" instantiates it.)                        *)
+HasComp(op) == \E j \in DOMAIN op.segs : op.segs[j].k = "comp"
+CoarseSegs(segs) == [j \in DOMAIN segs |-> IF segs[j].k = "comp" THEN [k |-> "param", s |-> <<>>, n |-> segs[j].parts[1].n] ELSE segs[j]]
+CoarsePattern(api, op) == SegsPattern(BaseSegs(api.base) \o CoarseSegs(op.segs))
+
 FitsE(api, i, M, cpath, empty) ==
-  api.ops[i].method = M /\ Derivs(FullPattern(api, api.ops[i]), cpath, empty) # {}
+  /\ api.ops[i].method = M
+  /\ \/ (~HasComp(api.ops[i]) \/ empty) /\ Derivs(FullPattern(api, api.ops[i]), cpath, empty) # {}
+     \/ (empty /\ HasComp(api.ops[i]) /\ Derivs(CoarsePattern(api, api.ops[i]), cpath, TRUE) # {})
 Fits(api, i, M, cpath) == FitsE(api, i, M, cpath, FALSE)
 
 FitMethodsE(api, cpath, empty) == {M \in Methods(api) : \E i \in DOMAIN api.ops : FitsE(api, i, M, cpath, empty)}
@@ -280,6 +302,7 @@ DispatchWhy(api, req, obs) ==
      ELSE IF Len(obs.ran) = 1
           THEN (IF ~(obs.ran[1] \in DOMAIN api.ops /\ api.ops[obs.ran[1]].method = M) THEN "handler-of-another-method-ran"
                 ELSE IF ~FitsE(api, obs.ran[1], M, cpath, TRUE) THEN "handler-ran-whose-template-does-not-fit"
+                ELSE IF HasComp(api.ops[obs.ran[1]]) THEN "ok"                  \* CompositeSegmentsOpen
                 ELSE IF ~RanOK(api, M, cpath, obs.ran[1], obs.params) THEN "wrong-operation-or-parameters"
                 ELSE "ok")
      ELSE IF M \in fit THEN "no-handler-ran-although-a-template-fits"
@@ -298,8 +321,13 @@ DispatchAllowed(api, req, obs) == DispatchWhy(api, req, obs) = "ok"
 (***************************************************************************)
 (* Well-formedness (what C01 quantifies over).                              *)
 (***************************************************************************)
-OpShape(op) == <<op.method, [i \in DOMAIN op.segs |-> [op.segs[i] EXCEPT !.n = <<>>]], op.trail>>
-ParamNames(op) == LET ps == SelectSeq(op.segs, LAMBDA sg : sg.k # "lit") IN [i \in DOMAIN ps |-> ps[i].n]
+OpShape(op) == <<op.method, [i \in DOMAIN op.segs |-> [k |-> IF op.segs[i].k = "comp" THEN "param" ELSE op.segs[i].k, s |-> op.segs[i].s]], op.trail>>
+RECURSIVE NamesOf(_)
+NamesOf(segs) == IF segs = <<>> THEN <<>>
+                 ELSE (CASE Head(segs).k = "lit" -> <<>>
+                         [] Head(segs).k = "comp" -> NamesOf(Head(segs).parts)
+                         [] OTHER -> <<Head(segs).n>>) \o NamesOf(Tail(segs))
+ParamNames(op) == NamesOf(op.segs)
 LitOK(t) == /\ t # <<>> /\ t # <<DOT>> /\ t # <<DOT, DOT>>
             /\ t[1] \notin {COLON, STAR}
             /\ \A k \in DOMAIN t : t[k] \notin {SLASH, HASH, LBRACE, RBRACE}
@@ -307,6 +335,9 @@ LitOK(t) == /\ t # <<>> /\ t # <<DOT>> /\ t # <<DOT, DOT>>
 WellFormedOp(op) ==
   /\ \A i, j \in DOMAIN ParamNames(op) : i # j => ParamNames(op)[i] # ParamNames(op)[j]
   /\ \A i \in DOMAIN op.segs : op.segs[i].k \in {"lit", "pre"} => LitOK(op.segs[i].s)
+  /\ \A i \in DOMAIN op.segs : op.segs[i].k = "comp" =>
+        /\ op.segs[i].parts[1].k = "param"
+        /\ \A j \in DOMAIN op.segs[i].parts : op.segs[i].parts[j].k = "lit" => LitOK(op.segs[i].parts[j].s)
   \* denco only treats a key as parameterised when it contains "/:" "/*" or "=:": a placeholder that neither opens its
   \* segment nor follows '=' needs another one in the template that does
   /\ \A i \in DOMAIN op.segs : (op.segs[i].k = "pre" /\ op.segs[i].s[Len(op.segs[i].s)] # 61) =>
